@@ -12,6 +12,7 @@ mod explore;
 mod flow;
 mod gate;
 mod libcall;
+mod mt;
 mod ops;
 mod push;
 mod replay;
@@ -26,6 +27,7 @@ use std::sync::{Arc, Mutex};
 #[derive(Debug, Clone, Serialize, Deserialize)]
 #[serde(untagged)]
 enum Job {
+    Mt { mt: ExploreJob },
     Explore { explore: ExploreJob },
     Scenario(Box<serde_json::Value>),
 }
@@ -40,6 +42,7 @@ impl Job {
     fn id(&self) -> String {
         match self {
             Job::Explore { explore } => format!("{}-{}", explore.profile, explore.seed),
+            Job::Mt { mt } => format!("mt-{}-{}", mt.profile, mt.seed),
             Job::Scenario(v) => v.get("id").and_then(|i| i.as_str()).unwrap_or("?").to_string(),
         }
     }
@@ -129,6 +132,24 @@ fn child(jobs_path: &str, out: &str, threads: usize) {
                         let id = job.id();
                         let sink2 = Arc::clone(&sink);
                         let result = match job {
+                            Job::Mt { mt } => {
+                                // one multi-thread runtime per history; the recorder is process-wide,
+                                // so these jobs run one at a time (the parent uses a single worker)
+                                let profile = mt.profile.clone();
+                                let seed = mt.seed;
+                                let r = std::panic::catch_unwind(move || {
+                                    let runtime = tokio::runtime::Builder::new_multi_thread()
+                                        .worker_threads(4)
+                                        .enable_all()
+                                        .build()
+                                        .expect("runtime");
+                                    let events = runtime.block_on(mt::run(seed, &profile, Some(sink2)));
+                                    runtime.shutdown_timeout(std::time::Duration::from_millis(200));
+                                    events
+                                });
+                                deltio::verif::install_global(None);
+                                r.map_err(|_| "panic".to_string())
+                            }
                             Job::Explore { explore } => {
                                 let profile = explore.profile.clone();
                                 let seed = explore.seed;
@@ -324,6 +345,14 @@ fn main() {
             }
             f.flush().unwrap();
             eprintln!("dvh: {} flow schedules", n);
+        }
+        "mt" => {
+            let profile = arg_value(&args, "--profile").unwrap_or_else(|| "pubrace".to_string());
+            let seeds = arg_value(&args, "--seeds").unwrap_or_else(|| "0..16".to_string());
+            let (a, b) = seeds.split_once("..").expect("--seeds A..B");
+            let (a, b): (u64, u64) = (a.parse().unwrap(), b.parse().unwrap());
+            let jobs = (a..b).map(|seed| Job::Mt { mt: ExploreJob { profile: profile.clone(), seed } }).collect();
+            parent(jobs, &out, chunks, 1);
         }
         "explore" => {
             let profile = arg_value(&args, "--profile").unwrap_or_else(|| "mixed".to_string());
